@@ -999,3 +999,53 @@ def r17_cont_as_param(ctext, fired, cont, param):
     ctext = ctext[:m.start()] + _pad(new, ctext[m.start():cb + 1]) + ctext[cb + 1:]
     fired.append('R17\' continuation %s(args) -> records (args), yields the parameter `%s`; closure result returned next to the recorded args' % (cont, param))
     return '{ let mut lifted_args = None; let lifted_out = ' + ctext + '; Ok((lifted_args, lifted_out)) }'
+
+
+# ----------------------------------------------------------------------------------------------
+# R33: opt-in per Fn (`fn.rules = ('R33',)`), used by unit vfspersist (C19)
+
+def r33_iter_map_collect(text, fired):
+    """R33: `let P: Vec<T> = E.iter().map(|X| BODY).collect();`  ->
+            `let mut P: Vec<T> = Vec::new(); let mut P_i: usize = 0;
+             while P_i < E.len() { let X = &E[P_i]; let P_v = BODY; P.push(P_v); P_i += 1; }`
+
+    Definition of `Iterator::map` followed by `collect::<Vec<_>>()` over `E.iter()` (E a place path naming a Vec / slice, possibly behind
+    an Arc): `iter()` yields `&E[0]`, `&E[1]`, ... in index order, `map` applies the closure to each item in that order, `collect`
+    pushes the results in that order into a new Vec.  BODY is the closure's body (block or expression), textually unchanged.
+    Nothing is dropped (the capacity reserved by `collect` from the size hint is not observable).  Verus has no specification for
+    iterator adapters.  Any other shape of `.collect(` raises ExtractError (exit 2)."""
+    while True:
+        msk = mask(text)
+        m0 = re.search(r'\.\s*collect\s*(?:::\s*<[^>]*>\s*)?\(', msk)
+        if not m0:
+            break
+        m = None
+        for mm in re.finditer(r'\blet\s+(\w+)\s*:\s*(Vec\s*<[^=;]*>)\s*=\s*((?:\w+\s*\.\s*)*\w+)\s*\.\s*iter\s*\(\s*\)\s*\.\s*map\s*\(\s*\|\s*(\w+)\s*\|\s*', msk):
+            if mm.start() < m0.start():
+                m = mm
+        if not m:
+            raise ExtractError('R33: unsupported shape of .collect(..): %r' % norm_ws(text[max(0, m0.start() - 80):m0.end() + 10]))
+        k = m.end()
+        if msk[k] == '{':
+            e = match_close(msk, k) + 1
+        else:
+            d, e = 0, k
+            while e < len(msk):
+                c = msk[e]
+                if c in '([{':
+                    d += 1
+                elif c in ')]}':
+                    if d == 0:
+                        break
+                    d -= 1
+                e += 1
+        tail = re.match(r'\s*\)\s*\.\s*collect\s*\(\s*\)\s*;', msk[e:])
+        if not tail or not (e <= m0.start() < e + tail.end()):
+            raise ExtractError('R33: `.iter().map(|x| ..)` is not directly followed by `.collect();` ending the let')
+        end = e + tail.end()
+        p, ty, coll, x = m.group(1), norm_ws(text[m.start(2):m.end(2)]), re.sub(r'\s+', '', text[m.start(3):m.end(3)]), m.group(4)
+        head = 'let mut %s: %s = Vec::new(); let mut %s_i: usize = 0; while %s_i < %s.len() { let %s = &%s[%s_i]; let %s_v = ' % (p, ty, p, p, coll, x, coll, p, p)
+        foot = '; %s.push(%s_v); %s_i += 1; }' % (p, p, p)
+        fired.append('R33 let %s: %s = %s.iter().map(|%s| ..).collect() -> index loop pushing the closure body' % (p, ty, coll, x))
+        text = text[:m.start()] + _pad(head, text[m.start():k]) + text[k:e] + _pad(foot, text[e:end]) + text[end:]
+    return text
